@@ -429,11 +429,11 @@ mod api {
         let mut o = Out::new("fixed_api", bound, "key texts over the synthetic layout (words, wrapped words, fused keys) x {traditional kar, smart quote, English, ANSI}; per step C02, at the end C15/C16, then terminating events vs a fresh context (C06)");
         let data = crate::data::Data::new(&make_config(&fixed_cfg(json!({}))));
         // keys of data/synthetic_layout.json: t=ক w=্ i=ত p=া o=ঁ e=ি d=ে c=ু u=র a=আ s=য v=ই x=। m=ো
-        let words = ["t", "tp", "api", "tc", "utc", "twi", "ap", "tpt", "\"tp\"", "(ap)", "tpx", "we", "dtp", "tcx", "apitpu", "'tcu'"];
+        let words = ["t", "tp", "api", "tc", "utc", "twi", "ap", "tpt", "\"tp\"", "(ap)", "tpx", "we", "dtp", "tcx", "apitpu", "'tcu'", "tw", "apiw", "tptw", "sw", "apsw"];
         let mut idx = 0usize;
         for trad in [false, true] { for smart in [false, true] { for eng in [false, true] { for ansi in [false, true] {
             let cfgv = fixed_cfg(json!({"fixed_suggestion": true, "fixed_kar": trad, "smart_quote": smart, "include_english": eng, "ansi": ansi, "fixed_vowel": true}));
-            for w in words.iter().take(if bound >= 2 { words.len() } else { 9 }) {
+            for w in words.iter() {
                 idx += 1;
                 if idx % nshards != shard { continue; }
                 o.cases += 1;
@@ -564,6 +564,18 @@ mod api {
                         let ok = serde_json::from_str::<std::collections::HashMap<String, String>>(&txt).is_ok();
                         if !ok { o.fail(json!({"clause": "C09 store is a JSON object of strings", "history": s.history(), "observed": txt})); }
                     }
+                    if !suffixed.is_empty() && round == 0 {
+                        // the suffixed form typed for the first time behind punctuation, then again bare and wrapped
+                        let want = { let mut probe = Sess::new(cfgv.clone()); let a = probe.typ(suffixed).unwrap(); a.get_suggestions()[a.previously_selected_index()].clone() };
+                        crate::verif_driver::remove_key_from_store(suffixed);
+                        let mut s2 = Sess::new(cfgv.clone());
+                        let _ = s2.typ(&format!("({}", suffixed)); s2.finish();
+                        for form in [suffixed.to_string(), format!("{}.", suffixed), format!("({})", suffixed)] {
+                            let a = s2.typ(&form).unwrap(); s2.finish();
+                            let sel = a.get_suggestions()[a.previously_selected_index()].clone();
+                            if !sel.contains(want.as_str()) { o.fail(json!({"clause": "C09 suffixed form of a learned word stays preselected after it was first typed behind punctuation", "history": s2.history(), "observed": sel, "expected_core": want})); break; }
+                        }
+                    }
                     if !suffixed.is_empty() {
                         let a3 = fresh.typ(suffixed).unwrap(); fresh.finish();
                         let sel = a3.get_suggestions()[a3.previously_selected_index()].clone();
@@ -594,7 +606,7 @@ mod api {
         let step = if bound >= 2 { 1 } else { 3 };
         for n in (0..=store.len()).step_by(step) { docs.push(("phonetic-candidate-selection.json", store[..n].to_vec())); }
         for n in (0..=ac.len()).step_by(step) { docs.push(("autocorrect.json", ac[..n].to_vec())); }
-        for d in ["[1,2]", "{\"a\":1}", "null", "{\"a\":\"\",\"\":\"\"}", "{\":\":\"\"}", "\u{FEFF}{}", "{\"a\":{\"b\":\"c\"}}"] {
+        for d in ["{\"hello\":\"\u{09B8}\u{09BE}\u{09B2}\u{09BE}\u{09AE}\"}", "{\"hello\":\"sa\u{09B2}am\"}", "[1,2]", "{\"a\":1}", "null", "{\"a\":\"\",\"\":\"\"}", "{\":\":\"\"}", "\u{FEFF}{}", "{\"a\":{\"b\":\"c\"}}"] {
             docs.push(("phonetic-candidate-selection.json", d.as_bytes().to_vec()));
             docs.push(("autocorrect.json", d.as_bytes().to_vec()));
         }
@@ -608,7 +620,7 @@ mod api {
             let r = std::panic::catch_unwind(std::panic::AssertUnwindSafe(|| {
                 let mut s = Sess::new(cfgv.clone());
                 let a = texts(&s.typ("ami").unwrap()); s.finish();
-                for t in [":e", "zzqe", "ae", "e"] { let _ = s.typ(t); s.finish(); }
+                for t in [":e", "zzqe", "ae", "e", "hello", "hellogulo"] { let _ = s.typ(t); s.finish(); }
                 let sg = s.typ("sesh").unwrap(); if !sg.is_lonely() && sg.len() > 1 { s.commit(1); } else { s.finish(); }
                 let cfg = make_config(&cfgv);
                 s.ctx.update_engine(&cfg);
@@ -623,6 +635,22 @@ mod api {
                     o.nontrivial += 1;
                 }
             }
+        }
+        // entries with empty strings arriving through a reload of the configuration
+        for doc in ["{\"zzq\":\"\",\"zzx\":\"ami\"}", "{\"zzq\":\"`\"}", "{\"\":\"\"}"] {
+            o.cases += 1;
+            crate::verif_driver::reset_user_files();
+            let r = std::panic::catch_unwind(std::panic::AssertUnwindSafe(|| {
+                let mut s = Sess::new(cfgv.clone());
+                let _ = s.typ("zzqe"); s.finish();
+                let path = crate::verif_driver::user_file_path("autocorrect.json");
+                std::fs::write(&path, doc).unwrap();
+                crate::verif_driver::set_mtime(&path, 4_000_000_000);
+                let cfg = make_config(&cfgv);
+                s.ctx.update_engine(&cfg);
+                for t in ["zzqe", "zzq", "zzxe", "e"] { let sg = s.typ(t).unwrap(); if !sg.is_lonely() && sg.len() > 1 { s.commit(1); } else { s.finish(); } }
+            }));
+            if r.is_err() { o.fail(json!({"clause": "C10 user auto-correct entries with empty strings (loaded by update_engine) never stop the keyboard (panic)", "history": {"config": cfgv, "events": "type zzqe; write autocorrect.json; update_engine; type zzqe, zzq, zzxe, e with commits", "autocorrect.json": doc}})); }
         }
         // missing user-data directory
         o.cases += 1;
@@ -682,6 +710,21 @@ mod api {
             let a = s.typ("\"amar\"").unwrap(); let b = fresh.typ("\"amar\"").unwrap();
             if !same(&a, &b) || a.get_pre_edit_text(0) != b.get_pre_edit_text(0) { o.fail(json!({"clause": "C11 option change takes effect at once", "option": k, "observed": show(&a), "expected": show(&b)})); }
         }
+        // a context created in ANSI mode and switched to Unicode offers emoji like a new one (C11, C18)
+        for phonetic in [true, false] {
+            o.cases += 1;
+            let mk = |ansi: bool| if phonetic { phon_cfg(json!({"ansi": ansi})) } else { let mut c = fixed_cfg(json!({"fixed_suggestion": true, "ansi": ansi, "fixed_vowel": true})); c["layout"] = json!(crate::verif_driver::probhat_layout()); c };
+            let mut s = Sess::new(mk(true));
+            let _ = s.typ(";)"); s.finish();
+            let cfg = make_config(&mk(false));
+            s.ctx.update_engine(&cfg);
+            let mut fresh = Sess::new(mk(false));
+            for t in [";)", if phonetic { "smile" } else { "hasi" }] {
+                let a = s.typ(t).unwrap(); s.finish();
+                let b = fresh.typ(t).unwrap(); fresh.finish();
+                if !same(&a, &b) { o.fail(json!({"clause": "C11 ANSI switched off on a live context: emoji are offered as in a new context", "also": "C18", "text": t, "observed": show(&a), "expected": show(&b)})); }
+            }
+        }
         {
             o.cases += 1;
             let mut s = Sess::new(cfgv.clone());
@@ -692,6 +735,19 @@ mod api {
             let mut fresh = Sess::new(c2.clone());
             let a = s.typ("tp").unwrap(); let b = fresh.typ("tp").unwrap();
             if !same(&a, &b) { o.fail(json!({"clause": "C11 changed layout switches method", "observed": show(&a), "expected": show(&b)})); }
+        }
+        {
+            // fixed -> fixed with another layout file
+            o.cases += 1;
+            let mut c1 = fixed_cfg(json!({"fixed_suggestion": true})); c1["layout"] = json!(crate::verif_driver::probhat_layout());
+            let mut s = Sess::new(c1);
+            let _ = s.typ("tp"); s.finish();
+            let c2 = fixed_cfg(json!({"fixed_suggestion": true}));
+            let cfg = make_config(&c2);
+            s.ctx.update_engine(&cfg);
+            let mut fresh = Sess::new(c2.clone());
+            let a = s.typ("tpu").unwrap(); let b = fresh.typ("tpu").unwrap();
+            if !same(&a, &b) { o.fail(json!({"clause": "C11 fixed -> fixed with another layout file loads the new layout", "observed": show(&a), "expected": show(&b)})); }
         }
         crate::verif_driver::reset_user_files();
         o.sample(json!({"edit": "remove entry"}));
